@@ -109,10 +109,23 @@ def cflt(x):
 
 
 # ------------------------------------------------------------------ translate / build
-def run(cmd, timeout, cwd=None, env=None):
+def _big_stack():
+    # large Gallina literals (long strings, long lists) overflow coqc's default 8 MB stack
+    import resource
+    try:
+        resource.setrlimit(resource.RLIMIT_STACK, (resource.RLIM_INFINITY, resource.RLIM_INFINITY))
+    except (ValueError, OSError):
+        try:
+            soft, hard = resource.getrlimit(resource.RLIMIT_STACK)
+            resource.setrlimit(resource.RLIMIT_STACK, (hard, hard))
+        except (ValueError, OSError):
+            pass
+
+
+def run(cmd, timeout, cwd=None, env=None, big_stack=False):
     try:
         p = subprocess.run(cmd, cwd=cwd, env=env, stdout=subprocess.PIPE, stderr=subprocess.STDOUT, timeout=timeout, text=True,
-                           errors='replace')
+                           errors='replace', preexec_fn=_big_stack if big_stack else None)
         return p.returncode, p.stdout
     except subprocess.TimeoutExpired as exc:
         out = exc.stdout if isinstance(exc.stdout, str) else (exc.stdout or b'').decode(errors='replace')
@@ -221,7 +234,7 @@ def assumptions_of(prop_vo_log):
 
 # ------------------------------------------------------------------ running the model inside Coq
 def _coqc(path, timeout):
-    rc, out = run(['coqc', '-Q', '.', 'BS', '-w', '-notation-overridden,-deprecated-since-8.16', path], timeout, cwd=COQ)
+    rc, out = run(['coqc', '-Q', '.', 'BS', '-w', '-notation-overridden,-deprecated-since-8.16', path], timeout, cwd=COQ, big_stack=True)
     for ext in ('.vo', '.vok', '.vos', '.glob'):
         try:
             os.remove(path[:-2] + ext)
